@@ -5,6 +5,9 @@
     package-level instance assigns a field through its receiver (no hidden state that could make a result depend on
     earlier calls — a memo, a free list, a resume hint);
   * no struct field is assigned directly from a slice parameter (no aliasing of caller memory);
+  * the only assignments to fields through a method receiver are the three known ones in `utils` (`BitList.SetBit`,
+    `BitList.grow`, and the Reed–Solomon cache in `getPolynomial`, which C15–C17 treat) — an object that several calls
+    share (the encoders' package-level `ec`, its `ReedSolomonEncoder`) gets no new memory;
   * no local variable or struct field is a fixed-size array beyond the known 5-element 2-of-5 patterns (the models work
     on unbounded lists; a scratch buffer of fixed capacity is a precondition they do not carry).
   Every property whose model treats an encoder as a function of its arguments depends on these facts, so they are among
@@ -19,9 +22,9 @@ namespace BV.Props.PurePdf
 open BV
 
 theorem purePdf_no_hidden_state :
-    Gen.Root.fact_globalWrites = [] ∧ Gen.Root.fact_aliasAssign = [] ∧ Gen.Root.fact_fixedArrays = [] ∧
-    Gen.Utils.fact_globalWrites = [] ∧ Gen.Utils.fact_aliasAssign = [] ∧ Gen.Utils.fact_fixedArrays = [] ∧
-    Gen.Pdf417.fact_globalWrites = [] ∧ Gen.Pdf417.fact_aliasAssign = [] ∧ Gen.Pdf417.fact_fixedArrays = [] := by
+    Gen.Root.fact_globalWrites = [] ∧ Gen.Root.fact_aliasAssign = [] ∧ Gen.Root.fact_fixedArrays = [] ∧ Gen.Root.fact_receiverWrites = [] ∧
+    Gen.Utils.fact_globalWrites = [] ∧ Gen.Utils.fact_aliasAssign = [] ∧ Gen.Utils.fact_fixedArrays = [] ∧ Gen.Utils.fact_receiverWrites = ["BitList_SetBit:data", "BitList_grow:data", "ReedSolomonEncoder_getPolynomial:polynomes"] ∧
+    Gen.Pdf417.fact_globalWrites = [] ∧ Gen.Pdf417.fact_aliasAssign = [] ∧ Gen.Pdf417.fact_fixedArrays = [] ∧ Gen.Pdf417.fact_receiverWrites = [] := by
   decide
 
 end BV.Props.PurePdf
